@@ -237,6 +237,7 @@ func TestCompiles(t *testing.T) {
 			vt.Excluded("fastgo-files-sharing-a-package")
 		}
 		p := idl.Gen(rt, mc)
+		idl.AddEnumNumberConsts(rt, p)
 		if vt.Known(prop, "unused-import-typedef-const") && retypeCrossFileBaseTypedefConsts(p) > 0 {
 			vt.Excluded("unused-import-typedef-const")
 		}
